@@ -962,6 +962,9 @@ def dec2hp(dec):
     if round(second, 9) == 60:
         second = 0
         minute += 1
+        if minute == 60:
+            minute = 0
+            degree += 1
     
     # to avoid precision issues with floating point operations
     # a string will be built to represent a sexagesimal number and then converted to float
